@@ -61,6 +61,30 @@ def dfs_plans(tier, sticky):
     p["task_coroutine"] = "O0:U:v3:d C0:T:m:co0 C1:F:m:tk1"
     p["task_coroutine_throws"] = "O0:U:e3:d C0:T:m:co0 C1:F:m:tc1.cur"
     p["run_unique"] = "X1:q O0:RU1:v7:d C0:F:m:co0.cur D"
+    # AwaitOn(e, ...) of futures whose cores are bound to the SAME executor e (MakeContractOn(e) fulfilled by a foreign fiber,
+    # Run(e, f) jobs called / dropped by the harness): the core's executor says where the work was scheduled, not which
+    # thread completes it, so the coroutine must still go through e.Submit exactly once and run inside e's Call, and a
+    # stopped e must end it with StopError
+    for k, kind in (("u", "UO1"), ("s", "SO1")):
+        p["awaiton_same_%s" % k] = "X1:q O0:%s:v7:d C0:F:m:an1_0.cur" % kind
+        p["awaiton_same_dyn_%s" % k] = "X1:q O0:%s:e2:d C0:F:m:dn1_0.cur" % kind
+        p["awaiton_same_stopped_%s" % k] = "X1:s O0:%s:v7:d C0:F:m:an1_0.cur" % kind
+        p["awaiton_same_hardstop_%s" % k] = "X1:h O0:%s:v7:d C0:F:m:dn1_0.cur" % kind
+        p["awaiton_same_thread_%s" % k] = "X1:q O0:%s:v7:d C0:S:t:an1_0" % kind
+        p["awaiton_same_later_%s" % k] = "X1:q O0:%s:v7:l C0:F:m:an1_0" % kind
+    p["awaiton_other_exec"] = "X1:q X2:q O0:UO2:v7:d C0:F:m:an1_0.cur"
+    p["awaiton_same2_ready_one"] = "X1:q O0:UO1:v1:a O1:SO1:v2:d C0:F:m:an1_0+1.cur"
+    p["awaiton_same2_later"] = "X1:q O0:UO1:v1:l O1:UO1:v2:l C0:F:m:an1_0+1.cur"
+    p["awaiton_same2_dyn_later"] = "X1:q O0:SO1:v1:l O1:SO1:v2:l C0:F:m:dn1_0+1"
+    p["awaiton_same2_stopped"] = "X1:s O0:UO1:v1:a O1:UO1:v2:d C0:F:m:an1_0+1.cur"
+    p["awaiton_run_same"] = "X1:q O0:RU1:v7:d C0:F:m:an1_0.cur"
+    p["awaiton_run_same_dyn"] = "X1:q O0:RS1:v7:d C0:F:m:dn1_0.cur"
+    p["awaiton_run_same2"] = "X1:q O0:RU1:v1:d O1:RS1:e2:d C0:F:m:an1_0+1.cur"
+    p["awaiton_run_hardstop"] = "X1:h O0:RU1:v7:d C0:F:m:an1_0.cur"
+    p["awaiton_run_hardstop_dyn"] = "X1:h O0:RS1:v7:d C0:S:m:dn1_0.cur"
+    p["awaiton_run_hardstop2"] = "X1:h O0:RU1:v1:d O1:RU1:v2:d C0:F:m:an1_0+1.cur"
+    p["co_run_hardstop"] = "X1:h O0:RU1:v7:d C0:F:m:cc0.cur"
+    p["on_hardstop"] = "X1:h C0:F:m:cur.on1.cur"
     # several coroutines on one SharedFuture
     p["shared_2_main"] = "O0:S:v7:d C0:F:m:co0 C1:F:m:co0"
     p["shared_2_err"] = "O0:S:e3:d C0:F:m:co0 C1:S:m:cc0"
@@ -74,6 +98,8 @@ def dfs_plans(tier, sticky):
     if sticky:
         p["sticky2_ready_one"] = "X1:q O0:U:v1:a O1:U:v2:d C0:F:t:on1.as0+1"
     if tier == "thorough":
+        p["awaiton_same2"] = "X1:q O0:UO1:v1:d O1:SO1:v2:d C0:F:m:an1_0+1"
+        p["awaiton_same2_dyn"] = "X1:q O0:UO1:v1:d O1:UO1:v2:d C0:F:m:dn1_0+1"
         p["shared_3_main"] = "O0:S:v7:d C0:F:m:co0 C1:F:m:co0 C2:F:m:ai0"
         p["await2"] = "O0:U:v1:d O1:S:v2:d C0:F:m:ai0+1"
         p["awaiton2"] = "X1:q O0:U:v1:d O1:S:v2:d C0:F:m:an1_0+1"
@@ -89,13 +115,15 @@ def random_plans(rng, n, sticky):
         nobj = rng.randint(2, 4)
         nshared = rng.randint(0, nobj)
         kinds = ["U"] * (nobj - nshared) + ["S"] * nshared
-        xs = [rng.choice("qqsp") for _ in range(rng.randint(1, 2))]
+        xs = [rng.choice("qqqsph") for _ in range(rng.randint(1, 2))]
         if rng.random() < 0.3:
             xs[0] = "q"
         toks = ["X%d:%s" % (j + 1, x) for j, x in enumerate(xs)]
         qx = [j + 1 for j, x in enumerate(xs)]
         for o, k in enumerate(kinds):
             oc = rng.choice(["v%d" % (o + 1)] * 3 + ["e%d" % (o + 1), "s"])
+            if rng.random() < 0.4:                  # the core is bound to one of the executors (MakeContractOn)
+                k = k + "O%d" % rng.choice(qx)
             toks.append("O%d:%s:%s:%s" % (o, k, oc, rng.choice("addl")))
         ncor = rng.randint(2, 3)
         uniq = [o for o, k in enumerate(kinds) if k == "U"]
@@ -353,7 +381,8 @@ def main(ck):
     # ---- config F: exhaustive, then random mixes
     R = Runner(ck, "F", sticky)
     dfs = dfs_plans(ck.tier, sticky)
-    big = {k: v for k, v in dfs.items() if k in ("await2", "await2_dyn", "awaiton2", "sticky2", "shared_3_main", "shared_2_threads")}
+    big = {k: v for k, v in dfs.items() if k in ("await2", "await2_dyn", "awaiton2", "sticky2", "shared_3_main", "shared_2_threads",
+                                                 "awaiton_same2", "awaiton_same2_dyn")}
     small = {k: v for k, v in dfs.items() if k not in big}
     all_traces = collect(ck, R, small, "dfs", [], stats)
     # the same exhaustive sets with the fiber switch offered AFTER each wrapped operation: a fiber is then stopped between
@@ -400,7 +429,8 @@ def main(ck):
         "also stopped between an operation and the plain code behind it; random walks offer it at both places) for 1 coroutine x 1 awaited object x 1 producer in every await form (co_await "
         "future/shared future/task, Await/AwaitOn/AwaitSticky variadic and iterator forms, On, Yield, CurrentExecutor; value, "
         "exception, dropped promise; already ready / during / later; executor alive or stopped), 2-3 coroutines on one "
-        "SharedFuture, 1 coroutine x 2 objects; seeded random walks (VERIF_SEED) over generated mixes of 2-3 coroutines x 2-4 "
+        "SharedFuture, 1 coroutine x 2 objects, AwaitOn(e, ...) of futures bound to the same executor e (contracts made on e and "
+        "fulfilled by another fiber, Run(e, f) jobs called or dropped by a hard stop); seeded random walks (VERIF_SEED) over generated mixes of 2-3 coroutines x 2-4 "
         "objects x 1-2 executors (queue, stopped, FairThreadPool); traces deduplicated by their sequence of operations on the "
         "callback words / awaiter counters plus harness markers; non-trivial = on some callback word or awaiter counter the "
         "operations of two threads interleave (thread A, then B, then A again): a registration, readiness test or suspension "
